@@ -457,7 +457,8 @@ class Region(object):
             array of (ra,dec) coordinates.
         """
         try:
-            sky = np.array(list(zip(ra, dec)))
+            # reshape so that zero positions still give a 2 column array
+            sky = np.array(list(zip(ra, dec))).reshape(-1, 2)
         except TypeError:
             sky = np.array([(ra, dec)])
         return sky
